@@ -4,6 +4,16 @@ Partitioning.__update_ranks."""
 MODULES = {"LoopOrder": "teaal/ir/loop_order.py", "Mapping": "teaal/parse/mapping.py",
            "Partitioning": "teaal/ir/partitioning.py"}
 
+OPAQUE_ATTRS = {"DiGraph": {"nodes": "Dict[Any, Dict[str, int]]"}}
+VAL_CLASSES = {
+    "RankNode": {"fields": [("rank", "str")], "getters": {"get_rank": "rank"}},
+    "FlattenNode": {"fields": [("ranks", "Tuple[str, ...]")], "getters": {"get_ranks": "ranks"}},
+    "PartitioningNode": {"fields": [], "getters": {}},
+}
+BASES = {"RankNode": ["PartitioningNode"], "FlattenNode": ["PartitioningNode"], "PartitioningNode": []}
+MODULES.update({"RankNode": "teaal/ir/part_nodes.py", "FlattenNode": "teaal/ir/part_nodes.py",
+                "PartitioningNode": "teaal/ir/part_nodes.py"})
+
 OBJ_CLASSES = {
     "LoopOrder": {"equation": "IrEquation", "ranks": "Optional[List[str]]", "coord_math": "Optional[CoordMath]",
                   "partitioning": "Optional[PartitioningO]"},
@@ -72,7 +82,21 @@ CONTRACTS = {
 }
 
 CONTRACTS.update({
-    "Partitioning.partition_names": dict(params=["self", "ranks", "all_"], returns="List[str]", **_OBS),
+    # observer at its call sites; its body is verified for the part the default loop order depends on: the levels come
+    # back in non-decreasing order of the priority recorded for them during the traversal (the traversal itself -
+    # networkx successors - is abstracted: loop 0 only fills `names` and `priorities`)
+    "Partitioning.partition_names": dict(
+        params=["self", "ranks", "all_"], returns="List[str]", observer=True,
+        kinds={"ranks": "Tuple[str, ...]"},
+        raises={"ValueError": "len(ranks) == 0"},
+        modifies=[],
+        ensures_env="exit",
+        ensures=[("levels_in_ascending_recorded_priority",
+                  "all(priorities[result[i]] <= priorities[result[j]] for j in range(len(result)) for i in range(j))"),
+                 ("the_collected_names", "same_ref(result, names)")],
+        abstract_loops={0: dict(modifies=["names[]", "priorities[]", "frontier[]"],
+                                why="graph traversal collecting the leaf level names and their graph priorities")},
+    ),
     "Partitioning.__update_ranks": dict(
         kinds={"part_ranks": "Tuple[str, ...]"},
         requires=["len(part_ranks) == 1", "part_ranks[0] in tensor_ranks", "distinct(tensor_ranks)"],
